@@ -184,6 +184,39 @@ ApplyEv(e) ==
      /\ applied' = applied \cup {c}
      /\ UNCHANGED <<env, flats, nobs, expect>>
 
+\* ------------------------------------------------------------------- Mask
+\* extension (advisory clauses E05.*): replace_operation rebuilt circuit c as circuit e.id
+MaskEv(e) ==
+  LET c == e.c  H == heap  new == e.id
+      known == c \in DOMAIN H /\ IsFlat(H, c) /\ new \notin DOMAIN H
+      \* the order of rebuilding is the listing the code iterated over (any listing of c: C02 decides whether it is a good one)
+      src == IF known THEN [k \in 1..Len(e.pairs) |-> e.pairs[k][2]] ELSE <<>>
+      paired == /\ known /\ e.n_old = Len(src) /\ e.n_new = Len(src) /\ Len(H[c].kids) = Len(src) /\ Range(src) = Range(H[c].kids)
+                /\ (\A k \in 1..Len(src) : e.pairs[k][1] \in DOMAIN e.tree /\ e.pairs[k][1] \notin DOMAIN H)
+                /\ Cardinality({e.pairs[k][1] : k \in 1..Len(src)}) = Len(src)
+                /\ e.tree[new].kids = [k \in 1..Len(src) |-> e.pairs[k][1]]
+      f == [i \in Range(src) |-> e.pairs[IndexIn(src, i)][1]]
+      Reported(kk, allowed) == LET L == Clean(e.links[e.pairs[kk][1]]) IN IF L \in allowed THEN L ELSE CHOOSE x \in allowed : TRUE
+      H2 == IF paired THEN DoMask(H, c, src, new, f, e.masks, Reported) ELSE H
+      cl == IF ~known THEN {Fail("E05.mask.source", c, <<"not a known flat circuit">>)}
+            ELSE IF ~paired THEN {Fail("E05.mask.count", c, <<"operations", Len(src), "listed", e.n_old, "rebuilt", e.n_new>>)}
+            ELSE UNION {LET n == e.pairs[k][1]  want == H2[n]  got == e.recs[n] IN
+                        When(got.kind = want.kind, Fail("E05.mask.kind", n, <<"source", H[src[k]].kind, "rebuilt", got.kind, "expected", want.kind>>))
+                        \cup When(got.qs = want.qs, Fail("E05.mask.qubits", n, <<got.qs, want.qs>>))
+                        \cup When(got.dur = want.dur, Fail("E05.mask.duration", n, <<got.dur, want.dur>>))
+                        \cup When(Range(got.chans) = Range(want.chans), Fail("E05.mask.channels", n, <<got.chans, want.chans>>))
+                        \cup When(Clean(e.links[n]) = want.link, Fail("E05.mask.link", n, <<"reported", Clean(e.links[n]), "expected", want.link>>))
+                        : k \in 1..Len(src)}
+      \* the specification continues from what the code built (the rebuilt circuit is an input, like an adopted structure)
+      R == [i \in DOMAIN e.tree |->
+              IF e.tree[i].t = "comp"
+              THEN [Comp(Clean(e.links[i]), e.recs[i].rep, e.tree[i].home, e.tree[i].kids) EXCEPT !.home = IF i = new THEN None ELSE e.tree[i].home]
+              ELSE [Leaf(e.recs[i].kind, e.recs[i].qs, e.recs[i].chans, e.recs[i].dur, e.recs[i].tag, Clean(e.links[i]), e.tree[i].home)
+                      EXCEPT !.extra = e.recs[i].extra]]
+  IN /\ heap' = IF new \in DOMAIN H THEN H ELSE Extend(H, R)
+     /\ fails' = fails \cup Tag(cl)
+     /\ UNCHANGED <<env, applied, flats, nobs, expect>>
+
 \* ---------------------------------------------------------------- Flatten
 FlattenEv(e) ==
   LET c == e.c
@@ -326,6 +359,7 @@ Step ==
          [] e.ev = "CopyCirc" -> CopyCircEv(e)
          [] e.ev = "Apply"    -> ApplyEv(e)
          [] e.ev = "Flatten"  -> FlattenEv(e)
+         [] e.ev = "Mask"     -> MaskEv(e)
          [] e.ev = "Obs" /\ e.what = "full" -> ObsEv(e)
          [] e.ev = "Obs" /\ e.what \in {"draw", "drawnc"} -> DrawEv(e)
          [] e.ev = "Obs" /\ e.what \notin {"full", "draw", "drawnc"} -> LightObsEv(e)
